@@ -205,7 +205,7 @@ func TestWithEqualsCallSite(t *testing.T) {
 		}
 		level := rapid.SampledFrom(lm.Levels).Draw(t, "level")
 		msg := lm.SmallString().Draw(t, "msg")
-		form := rapid.IntRange(0, lm.NumForms-1).Draw(t, "form")
+		form := rapid.IntRange(0, 3).Draw(t, "form") // only entry points that take attributes
 		s1, s2 := &lm.Sink{}, &lm.Sink{}
 		l1 := lm.Derive(st.fresh(s1), append(append([]lm.Step{}, ctxChain...), lm.Step{With: a}))
 		l2 := lm.Derive(st.fresh(s2), ctxChain)
